@@ -360,4 +360,4 @@ def coverage_extra(agg):
 
 
 def required(tier):
-    return {"updates_verified": 300, "deltaclass:-1..-7": 15, "deltaclass:<=-8": 15, "deltaclass:+1..+7": 15, "deltaclass:>=+8": 15, "deltaclass:0": 5, "multi_key_removals": 10, "frames_with_attrs": 20, "refused_updates": 20, "updates_with_unchanged_keys": 30, "updates_on_derived_handles": 200, "callers_dicts_compared": 100}
+    return {"updates_verified": 300, "deltaclass:-1..-7": 15, "deltaclass:<=-8": 15, "deltaclass:+1..+7": 15, "deltaclass:>=+8": 15, "deltaclass:0": 5, "multi_key_removals": 10, "frames_with_attrs": 20, "refused_updates": 20, "updates_with_unchanged_keys": 30, "updates_on_derived_handles": 200, "views_after_update_on_handle": 300, "callers_dicts_compared": 100}
